@@ -404,7 +404,7 @@ def differential(chk, suite_name, cases, entry, model_cases=None, impl_fn="impl"
         if isinstance(a, list) and len(a) > 1 and a[0] == "err":
             k = "err:" + str(a[1])
         kinds[k] = kinds.get(k, 0) + 1
-        flags.append(bool(nontrivial(c, a)) if nontrivial else True)
+        flags.append(bool(nontrivial(c, a_raw)) if nontrivial else True)
         if model_ok and a != b:
             dis.append({"case": c, "impl": a, "model": b})
         if oracle:
